@@ -533,7 +533,7 @@ class Sym(minirust.Obj):
 
     def __init__(self, terms=None):
         self.terms = dict((m, c) for m, c in (terms or {}).items() if c)
-        minirust.Obj.__init__(self, 'Dyadic', {'is_zero': lambda a: not self.terms, 'clone': lambda a: self, 'copied': lambda a: self, 'cloned': lambda a: self,
+        minirust.Obj.__init__(self, 'Dyadic', {'is_zero': lambda a: not self.terms, 'approx': lambda a: False, 'clone': lambda a: self, 'copied': lambda a: self, 'cloned': lambda a: self,
                                                'neg': lambda a: -self, 'add': lambda a: self + a[0], 'mul': lambda a: self * a[0], 'sub': lambda a: self - a[0]})
 
     @staticmethod
@@ -770,6 +770,9 @@ def _s4_interp(facts):
                 return it.local_call(DY + '::new', [a[0], 0])
             if isinstance(a[0], float):
                 return it.local_call('<%s as std::convert::From<f64>>::from' % DY, [a[0]])
+        if c == 'num::Complex::<T>::new' and len(e['args']) == 2:
+            a = args()
+            return {'__struct__': 'num::Complex', 're': a[0], 'im': a[1]}
         return base(c, e, args)
     it.host_call = hc
     hm0 = it.host_method
@@ -873,6 +876,47 @@ def ev_scalar4(facts):
                     fail(name, '%s %s %s = %s, exactly %s' % (show(va), {'add': '+', 'sub': '-', 'mul': '*'}[name], show(vb), show(got), show(want)))
                 if any(d['flags'] & 2 for d in r['0']):
                     fail('exact-stays-exact', '%s %s %s of exact scalars with small coefficients is flagged approximate' % (show(va), name, show(vb)))
+    # the approximation flag through the ring operations: a coefficient that is flagged approximate — an approximate ZERO included: (2^70 + 1) - 2^70 is
+    # stored as 0 with the flag, its true value is 1 — taints every result coefficient it contributes to, unless its partner is an exact zero
+    res['taint'] = [True, '']
+    tdom = [0, 1, 6, 8, 10, 12]
+    for ia in tdom:
+        for ib in tdom:
+            for fl_side in (0, 1):
+                for fi in range(4):
+                    a, b = minirust.deep_clone(dom[ia]), minirust.deep_clone(dom[ib])
+                    (a if fl_side == 0 else b)['0'][fi]['flags'] |= 2
+                    va, vb = vals[ia], vals[ib]
+                    for name, key in keys.items():
+                        r = _s4_call(facts, key, [minirust.deep_clone(a), minirust.deep_clone(b)])
+                        n += 1
+                        for k_ in range(4):
+                            if name in ('add', 'sub'):
+                                must = k_ == fi
+                            else:
+                                other = vb if fl_side == 0 else va
+                                must = other[(k_ - fi) % 4] != 0
+                            if must and not (r['0'][k_]['flags'] & 2):
+                                fail('taint', '%s %s %s with coefficient %d of the %s operand flagged approximate (stored value %s): coefficient %d of the result (%s) is not flagged although it depends on it'
+                                     % (show(va), {'add': '+', 'sub': '-', 'mul': '*'}[name], show(vb), fi, 'left' if fl_side == 0 else 'right', (va if fl_side == 0 else vb)[fi], k_, _dy_value(r['0'][k_])))
+    # zero / one tests where a floating-point view of the value would mislead or fail: next to one, far outside the range of f64, sqrt2 powers with
+    # large exponents (the scalars of large simplified circuits) — the tests are about the exact value
+    from fractions import Fraction as _Fr
+    far = [[((1 << 60) + 1, -60), (0, 0), (0, 0), (0, 0)], [((1 << 60) - 1, -60), (0, 0), (0, 0), (0, 0)], [(1, 0), (1, -1200), (0, 0), (0, 0)], [(1, 0), (0, 0), (0, 0), (-1, -70)],
+           [(1, -1200), (0, 0), (0, 0), (0, 0)], [(0, 0), (0, 0), (1, -1100), (0, 0)], [(1, 1100), (0, 0), (0, 0), (0, 0)], [(0, 0), (1, 1500), (0, 0), (-1, 1500)], [(1, -2000), (0, 0), (0, 0), (0, 0)],
+           [(1, 0), (0, 0), (0, 0), (0, 0)], [(0, 0), (0, 0), (0, 0), (0, 0)]]
+    for c in far:
+        a = mk(c)
+        va = tuple(_Fr(v) * _Fr(2) ** e_ for v, e_ in c)
+        for nm_, key_, want_ in (('is_zero', '<%s as num::Zero>::is_zero' % S4, not any(va)), ('is_one', '<%s as num::One>::is_one' % S4, va == (1, 0, 0, 0))):
+            n += 1
+            try:
+                got_ = _s4_call(facts, key_, [a])
+            except minirust.Panics as ex:
+                fail('zero-one-tests', '%s of the exact scalar with coefficients %s panics (%s)' % (nm_, ', '.join('%d*2^%d' % x for x in c), ex))
+                continue
+            if got_ != want_:
+                fail('zero-one-tests', '%s of the exact scalar with coefficients %s answers %s' % (nm_, ', '.join('%d*2^%d' % x for x in c), got_))
     # every operator impl (by value / by reference / assigning forms) agrees with the reference on pairs that separate operand order
     res['operator-impls'] = [True, '']
     from .. import rops as _rops
@@ -936,6 +980,21 @@ def ev_scalar4(facts):
             ok = isinstance(r, tuple) and r[0] == 'Some' and isinstance(r[1][0], cs.Ph) and (r[1][0].v, r[1][1]) == want
         if not ok:
             fail('exact-phase-and-sqrt2-pow', '%s is recognised as %s, expected %s' % (show(va), r, want))
+    # recognition on full-width mantissas (64 significant bits): 2^64 - 1, 2^63 + 1 are not units, whatever a signed view of the mantissa says; the same
+    # values halved to sqrt2 multiples; 2^63 is the unit 1 * 2^63
+    full = [((1 << 64) - 1, 'the exact scalar 2^64 - 1'), ((1 << 63) + 1, 'the exact scalar 2^63 + 1'), ((1 << 64) - 3, 'the exact scalar 2^64 - 3')]
+    for mant, text in full:
+        for pos_ in range(4):
+            for sg_ in (0, 1):
+                zero_ = _dy_call(facts, DY + '::new', [0, 0])
+                co = [minirust.deep_clone(zero_) for _ in range(4)]
+                co[pos_] = dict(zero_, val=mant, exp=0, flags=sg_)
+                if not _dy_wellformed(co[pos_]):
+                    raise minirust.NoEval('representation of a full-width mantissa: %r' % (co[pos_],))
+                r = _s4_call(facts, ek, [{'__struct__': S4, '0': co}])
+                n += 1
+                if r != minirust.NONE:
+                    fail('exact-phase-and-sqrt2-pow', '%s%s as coefficient %d is recognised as %s: it is not of the form sqrt2^p * e^(i k pi/4)' % ('minus ' if sg_ else '', text, pos_, r))
     return dict((k, tuple(v)) for k, v in res.items()), n
 
 
@@ -1090,7 +1149,7 @@ def _run_own(ck):
         msgs = {'add': 'the reference Add impl is the sum in Z[omega][1/2]', 'sub': 'the reference Sub impl is the difference', 'mul': 'the reference Mul impl is the product with omega^4 = -1',
                 'conj': 'conj is complex conjugation', 'zero-one-tests': 'is_zero / is_one agree with the value', 'sqrt2-pow': 'sqrt2_pow(p) is sqrt(2)^p',
                 'from-phase': 'the scalar of a phase k*pi/4 is omega^k', 'from-phase-inexact': 'a phase that is not a multiple of pi/4 becomes an approximate scalar close to e^(i pi phi)', 'exact-phase-and-sqrt2-pow': 'exactly the scalars sqrt2^p * omega^k are recognised, with that phase and power',
-                'exact-stays-exact': 'exact operands with small coefficients give exact results', 'operator-impls': 'every Add / Sub / Mul impl (by value, by reference, assigning) computes the reference operation in operand order'}
+                'exact-stays-exact': 'exact operands with small coefficients give exact results', 'taint': 'an approximate coefficient (an approximate zero included) taints every result coefficient that depends on it', 'operator-impls': 'every Add / Sub / Mul impl (by value, by reference, assigning) computes the reference operation in operand order'}
         for name, (ok, cex) in sorted(sem.items()):
             ck.ob('E3-scalar4', name, ok, ck.site(S4 + '::exact_phase_and_sqrt2_pow') if name.startswith('exact-phase') else 'quizx/src/scalar.rs', '%s: %s' % (msgs[name], cex), sample={'evaluations': nev})
         ck.floor('E3-scalar4-evaluations', nev, 1000)
